@@ -1754,9 +1754,15 @@ impl TcpProxy {
             None => return Err(ProxyError::NoListenerFound(address)),
         };
 
-        listener.set_tags(address.to_string(), None);
-        if let Some(cluster_id) = listener.cluster_id.take() {
-            self.fronts.remove(&cluster_id);
+        // A TCP listener serves one cluster. The frontend of another cluster
+        // at this address is not the one the listener holds: removing it must
+        // not take the listener's route away.
+        if self.fronts.get(&front.cluster_id) == Some(&listener.token) {
+            self.fronts.remove(&front.cluster_id);
+        }
+        if listener.cluster_id.as_deref() == Some(front.cluster_id.as_str()) {
+            listener.set_tags(address.to_string(), None);
+            listener.cluster_id = None;
         }
         Ok(())
     }
